@@ -51,6 +51,18 @@ mod transport_service;
 #[cfg(feature = "verif")]
 pub mod verif;
 
+/// Verification hooks: re-exports of the crate-private items needed to build a real
+/// [`ProtocolSet`] and observe what it reports to the installed protocols, for the external
+/// harness. Adds code only; absent without the `verif` feature.
+#[cfg(feature = "verif")]
+pub mod verif_protocol_set {
+    pub use super::{
+        connection::{ConnectionHandle, Permit},
+        protocol_set::{InnerTransportEvent, ProtocolCommand, ProtocolSet},
+    };
+    pub use crate::transport::manager::{ProtocolContext, TransportManagerEvent};
+}
+
 /// Substream direction.
 #[derive(Debug, Copy, Clone, Hash, PartialEq, Eq)]
 pub enum Direction {
